@@ -22,17 +22,21 @@ import Golib.Model.C12Ev
 
 namespace Golib.C12
 
-/-- One action of a body: its event tag and what it computes.  `f` is only consulted
-for access / callback events; for `read` and `callFn` its effect on the shared state
-is discarded (a read cannot modify the map). -/
+/-- One action of a body: its event tag and what it computes.  `f` is consulted for
+accesses to the map only; for `read` its effect on the shared state is discarded (a read
+cannot modify the map).  `g` is what a `callFn` action (a user callback that does not get
+the map, or any goroutine-local computation) does to the local state: it cannot see
+the shared state. -/
 structure Act (σ μ : Type) where
   ev : Ev
   f : σ → μ → σ × μ := fun s l => (s, l)
+  g : μ → μ := id
 
 def Act.apply {σ μ : Type} (a : Act σ μ) (s : σ) (l : μ) : σ × μ :=
   match a.ev with
   | .write | .replace | .callFnMap => a.f s l
-  | .read | .callFn => (s, (a.f s l).2)
+  | .read => (s, (a.f s l).2)
+  | .callFn => (s, a.g l)
   | _ => (s, l)
 
 structure Thread (σ μ : Type) where
